@@ -74,6 +74,8 @@ def handled_options(repo, fn, F=None):
                         out.add(t.attr)
                 if F is not None:
                     for a in F.atoms(n.args[1], g):
+                        if a.startswith('via:'):
+                            a = a[4:]        # a row of a dispatch table
                         if a.startswith('opts.') and a.count('.') == 1:
                             out.add(a.split('.')[1])
     return out
@@ -124,10 +126,31 @@ def option_exhaustive(ctx):
                                                    'isinstance')]
                     if len(neg) >= 5:
                         chain_else = True
+                    # table-driven dispatch (`for kind, .. in table: if
+                    # isinstance(i, kind): ..; break` ... else: raise): the
+                    # raise is control-dependent on an isinstance test over
+                    # at least as many option kinds
+                    kinds = set()
+                    for t in F.cfg_tests(n, g):
+                        if isinstance(t, ast.Call) and unparse(
+                                t.func) == 'isinstance' and len(t.args) == 2:
+                            for a in F.atoms(t.args[1], g):
+                                a = a[4:] if a.startswith('via:') else a
+                                if a.startswith('opts.'):
+                                    kinds.add(a)
+                    # ... or on the result of a helper that tried them
+                    for a in F.control(n, g):
+                        a = a[4:] if a.startswith('via:') else a
+                        if a.startswith('opts.') and a.count('.') == 1:
+                            kinds.add(a)
+                    if len(kinds) >= 5:
+                        chain_else = True
         ctx.ob(R, f.fq + '|unknown-option-raises', chain_else, f.node,
                'unknown option types are silently ignored')
         ctx.ob(R, f.fq + '|strings-pass-through',
-               any('stringy_types' in unparse(n)
+               any('stringy_types' in unparse(n) or (
+                   len(n.args) == 2 and has(F.atoms(n.args[1], g),
+                                            'stringy_types'))
                    for g in F.reach(f, 1) if g.cls is f.cls
                    for n in ast.walk(g.node)
                    if isinstance(n, ast.Call) and unparse(n.func) ==
@@ -148,12 +171,14 @@ def option_exhaustive(ctx):
     # enum coverage
     flags_mod = repo.module('bfg9000.tools.cc.flags')
     table = flags_mod.assigns.get('optimize_flags')
-    Q.require(isinstance(table, ast.Dict), 'cc.flags.optimize_flags missing')
-    keys = set()
-    for k in table.keys:
-        v = const_eval(repo, flags_mod, k)
-        if isinstance(v, EnumMember):
-            keys.add(v.name)
+    Q.require(table is not None, 'cc.flags.optimize_flags missing')
+    # the table as a constant: a dict display and/or module-level item
+    # assignments
+    tv = const_eval(repo, flags_mod, ast.Name(id='optimize_flags',
+                                              ctx=ast.Load()))
+    Q.require(isinstance(tv, dict), 'cc.flags.optimize_flags is not a '
+              'constant table')
+    keys = {k.name for k in tv if isinstance(k, EnumMember)}
     for mname in enum_members(repo, OPTS, 'OptimizeValue'):
         ctx.ob(R, 'OptimizeValue.{}|cc.optimize_flags'.format(mname),
                mname in keys, table,
@@ -308,18 +333,25 @@ def flag_merge(ctx):
         for what, meth in pairs:
             # variables[<target var>] = [<global var>] + <rule>.<meth>(gopts)
             ok = False
+            cands = []
             for n in walk_no_nested(f.node):
-                if not (isinstance(n, ast.Assign) and isinstance(
-                        n.targets[0], ast.Subscript)):
-                    continue
-                v = n.value
+                if isinstance(n, ast.Assign) and isinstance(
+                        n.targets[0], ast.Subscript):
+                    cands.append((n.value, n.targets[0].slice))
+            # ... or the variables mapping is returned as a dict display
+            for r_ in Q.returns(f.node):
+                for d_ in ast.walk(r_.value) if r_.value is not None else []:
+                    if isinstance(d_, ast.Dict):
+                        cands += [(v_, k_) for k_, v_ in zip(d_.keys,
+                                                            d_.values)
+                                  if k_ is not None]
+            for v, key in cands:
                 if isinstance(v, ast.BinOp) and isinstance(v.op, ast.Add):
                     l, r = F.atoms(v.left, f), F.atoms(v.right, f)
                     if has_call(direct(r), meth) and has(r, 'rule') and \
                             has_call(direct(l), 'flags_vars') and \
                             not has_call(direct(l), meth):
-                        ok = has_call(F.atoms(n.targets[0].slice, f),
-                                      'flags_vars')
+                        ok = has_call(F.atoms(key, f), 'flags_vars')
             ctx.ob(R, '{}|target-{}=[global]+per-target'.format(fq, what),
                    ok, f.node, 'target {} are not [global variable] + '
                    'per-target flags'.format(what))
